@@ -34,6 +34,8 @@ class Emitter:
         self.line = 1
         self.col0 = True  # at line start
         self.lines = {}  # id(node) -> line where construct begins
+        self.nctl = 0
+        self.ctl_comments = False
 
     def w(self, s):
         if not s:
@@ -48,7 +50,11 @@ class Emitter:
 
     def ctl(self, ind, text, nl="\n"):
         self.need_line_start()
-        self.w(ind + "%" + text + nl)
+        self.nctl += 1
+        tail = ""
+        if self.ctl_comments and text.rstrip().endswith(":") and "\n" not in text and self.nctl % 5 == 0:
+            tail = ["  # note", " # a: b", "# c"][self.nctl % 3]  # a trailing Python comment, as PythonFragment allows
+        self.w(ind + "%" + text + tail + nl)
 
     def body(self, nodes):
         for n in nodes:
@@ -156,6 +162,7 @@ class Emitter:
 
 def emit(prog):
     e = Emitter()
+    e.ctl_comments = bool(prog.get("ctl_comments"))
     head = ""
     if prog.get("page"):
         head = "<%page " + prog["page"] + "/>"
